@@ -319,6 +319,8 @@ func consoleConfigs(tier string) []consoleCfg {
 	add("FieldsExclude=[k0]", func(c *consoleCfg) { c.fieldsExcl = append(c.fieldsExcl, "k0") })
 	add("FieldsExclude=[error]", func(c *consoleCfg) { c.fieldsExcl = append(c.fieldsExcl, "error") })
 	add("FieldsExclude=[\"\" pre]", func(c *consoleCfg) { c.fieldsExcl = append(c.fieldsExcl, "", "pre") })
+	add("FieldsExclude=[k err] (prefixes only)", func(c *consoleCfg) { c.fieldsExcl = append(c.fieldsExcl, "k", "err", "k00") })
+	add("PartsExclude=[tim lev] (prefixes only)", func(c *consoleCfg) { c.partsExclude = []string{"tim", "lev", "messages"} })
 	add("TimeFormat=RFC3339", func(c *consoleCfg) { c.timeFormat = time.RFC3339 })
 	add("TimeFormat=15:04:05.000", func(c *consoleCfg) { c.timeFormat = "15:04:05.000" })
 	add("TimeLocation=+02:30", func(c *consoleCfg) { c.loc = time.FixedZone("Z", 2*3600+1800) })
@@ -419,6 +421,20 @@ func runC16() {
 				render(mk(tsStep, entryInfo, []seqx.Field{f, {M: "Int", Key: "k1", Val: 5}}, msgM))
 				render(mk(tsStep, seqx.Entry{Kind: "Error"}, []seqx.Field{errF, f}, msgM))
 				render(mk(nil, entryLog, []seqx.Field{f, f}, send))
+			}
+		}
+		// nested values whose strings hold characters that a JSON re-encoder may or may not escape
+		for _, txt := range []string{"<a&b>", "\u2028x", "q\"\\", "é\x7f", "sp ace"} {
+			nested := []seqx.Field{
+				{M: "Strs", Key: "k0", Val: []string{txt, "v"}},
+				{M: "Dict", Key: "k0", Sub: []seqx.Field{{M: "Str", Key: txt, Val: txt}}},
+				{M: "Interface", Key: "k0", Val: map[string]interface{}{"h": txt, "n": []interface{}{txt, 1.5, nil}}},
+				{M: "Array", Key: "k0", Form: "arr", Sub: []seqx.Field{{M: "Str", Val: txt}, {M: "Dict", Sub: []seqx.Field{{M: "Str", Key: "in", Val: txt}}}}},
+				{M: "Errs", Key: "k0", Val: []error{fmt.Errorf("%s", txt)}},
+			}
+			for _, f := range nested {
+				render(mk(tsStep, entryInfo, []seqx.Field{f, {M: "Int", Key: "k1", Val: 5}}, msgM))
+				render(mk(nil, seqx.Entry{Kind: "Error"}, []seqx.Field{errF, f}, send))
 			}
 		}
 		for _, a := range S {
